@@ -396,3 +396,9 @@ package protocol
 //@   requires self != nil
 //@   safe C13
 //@   loop#1 invariant index >= 0 && index <= propertyLen && len(self.Data) >= 8 && propertyLen <= len(self.Data) - 8
+
+// C14: the key/value value frame a client builds: every pair is written as (length of the key, key, length of the
+// value, value), the layout GetKVValue reads back (the key's length field carried the value's length - repaired defect)
+//@ func NewLockCommandDataSetKV
+//@   at call copy#1 assert C14.kv.keylen: implies(len(key) < 0x100000000 && i >= 4 && i < 0x4000000000000000, buf[i-4] + buf[i-3]*256 + buf[i-2]*65536 + buf[i-1]*16777216 == len(key))
+//@   at call copy#2 assert C14.kv.valuelen: implies(len(value) < 0x100000000 && i >= 4 && i < 0x4000000000000000, buf[i-4] + buf[i-3]*256 + buf[i-2]*65536 + buf[i-1]*16777216 == len(value))
